@@ -25,7 +25,7 @@ class Refuse(Exception):
 
 class Unit:
     def __init__(self, path, cls, method, coq_name, params, env, ret, ret_coq=None, calls=None,
-                 fallthrough=None, raises=None, ret_patterns=None):
+                 fallthrough=None, raises=None, ret_patterns=None, case_pattern=None):
         self.path = path
         self.cls = cls            # class name or None for module-level function
         self.method = method
@@ -38,6 +38,7 @@ class Unit:
         self.fallthrough = fallthrough  # coq text returned when control falls off the end
         self.raises = raises or {}      # {exception class: coq text}
         self.ret_patterns = ret_patterns or {}  # {ast.unparse(return value): coq text}
+        self.case_pattern = case_pattern        # translate only the body of the `case` with this pattern text
 
 
 def find_function(path, cls, method):
@@ -106,6 +107,15 @@ class Tr:
             if ta == tb == "set" and isinstance(e.op, (ast.BitOr, ast.BitAnd, ast.Sub)):
                 op = {ast.BitOr: "∪", ast.BitAnd: "∩", ast.Sub: "∖"}[type(e.op)]
                 return f"({a} {op} {b})", "set"
+            if ta == tb == "Z" and isinstance(e.op, ast.FloorDiv):
+                return f"({a} / {b})", "Z"            # Python // on ints is floor division = Z.div
+            if ta == tb == "S" and isinstance(e.op, (ast.Add, ast.Sub, ast.Mult)):
+                op = {ast.Add: "SAdd", ast.Sub: "SSub", ast.Mult: "SMul"}[type(e.op)]
+                return f"({op} {a} {b})", "S"
+            if ta == tb == "Z" and isinstance(e.op, ast.Mod):
+                return f"({a} mod {b})", "Z"          # Python % on ints is floor modulo = Z.modulo
+            if ta == "S" and tb == "S" and isinstance(e.op, ast.Mod):
+                return f"(SMod {a} {b})", "S"
             raise Refuse(f"binary operator {type(e.op).__name__} on {ta},{tb} at line {e.lineno}")
         if isinstance(e, ast.Set) and len(e.elts) == 1:
             a, ta = self.expr(e.elts[0])
@@ -114,6 +124,10 @@ class Tr:
             return f"({{[ {a} ]}} : gset positive)", "set"
         if isinstance(e, ast.Call):
             return self.call(e)
+        if isinstance(e, ast.Compare) and len(e.ops) == 1 and isinstance(e.ops[0], ast.Eq):
+            (a, ta), (b, tb) = self.expr(e.left), self.expr(e.comparators[0])
+            if ta == "S" and tb == "S":
+                return f"(SCmp CEq {a} {b})", "S"   # overloaded == of SQLAlchemy column elements
         if isinstance(e, (ast.BoolOp, ast.Compare)) or (isinstance(e, ast.UnaryOp) and isinstance(e.op, ast.Not)):
             return self.boolexpr(e), "bool"
         raise Refuse(f"unsupported expression at line {getattr(e, 'lineno', '?')}: {ast.dump(e)[:80]}")
@@ -137,6 +151,16 @@ class Tr:
         if callee not in self.u.calls:
             raise Refuse(f"call to {callee} at line {e.lineno} is not whitelisted for this unit")
         fn, argtys, rty = self.u.calls[callee]
+        if argtys == "varargs:S":
+            if not (len(e.args) == 1 and isinstance(e.args[0], ast.Starred) and isinstance(e.args[0].value, ast.List)):
+                raise Refuse(f"varargs call to {callee} at line {e.lineno} is not of the form f(*[a, b, ...])")
+            items = []
+            for a in e.args[0].value.elts:
+                txt, ty = self.expr(a)
+                if ty != "S":
+                    raise Refuse(f"argument of {callee}: {ty} where S expected, line {e.lineno}")
+                items.append(txt)
+            return f"({fn} [{'; '.join(items)}])", rty
         if len(argtys) != len(e.args):
             raise Refuse(f"arity of {callee} at line {e.lineno}")
         args = []
@@ -301,11 +325,28 @@ class Tr:
         raise Refuse(f"unsupported statement {type(s).__name__} at line {s.lineno}")
 
 
+def find_case(fn, pattern, path):
+    hits = []
+    for node in ast.walk(fn):
+        if isinstance(node, ast.match_case) and ast.unparse(node.pattern) == pattern:
+            hits.append(node)
+    if len(hits) != 1:
+        raise Refuse(f"expected exactly one `case {pattern}` in {fn.name} of {path}, found {len(hits)}")
+    return hits[0]
+
+
 def translate(u: Unit):
     """-> (coq definition text, source text of the translated function)"""
     fn, src = find_function(u.path, u.cls, u.method)
     tr = Tr(u)
-    body = tr.block(fn.body, None)
+    stmts = fn.body
+    if u.case_pattern is not None:
+        mc = find_case(fn, u.case_pattern, u.path)
+        if mc.guard is not None:
+            raise Refuse(f"guard on case {u.case_pattern}")
+        stmts = mc.body
+        src = "\n".join(ast.unparse(x) for x in stmts)
+    body = tr.block(stmts, None)
     params = " ".join(f"({n} : {t})" for n, t in u.params)
     return f"Definition {u.coq_name} {params} : {u.ret_coq} :=\n{textwrap.indent(body, '  ')}.", src
 
